@@ -116,8 +116,10 @@ def maskInt (fb : Nat) (x : Int) : Int := x - x % 2 ^ fb
 /-- `round`: `Self(self.0.wrapping_add(Self::ROUND) & Self::INT_MASK)`. -/
 def fxRound (t : IntTy) (fb : Nat) (a : Int) : Option Int :=
   pure (maskInt fb (t.wrappingAdd a (2 ^ (fb - 1))))
-/-- `abs`: `Self(self.0.abs())` — `.abs()` traps on `MIN`. -/
-def fxAbs (t : IntTy) (a : Int) : Option Int := t.abs a
+/-- `abs` (after fix 7d0f778): `Self(self.0.wrapping_abs())`. -/
+def fxAbs (t : IntTy) (a : Int) : Option Int := pure (t.wrappingAbs a)
+/-- the pre-fix `abs`: `Self(self.0.abs())` — `.abs()` traps on `MIN`. -/
+def fxAbsPreFix (t : IntTy) (a : Int) : Option Int := t.abs a
 /-- `floor`: `Self(self.0 & Self::INT_MASK)`. -/
 def fxFloor (_t : IntTy) (fb : Nat) (a : Int) : Option Int := pure (maskInt fb a)
 /-- `fract`: `Self(self.0 - self.floor().0)` — raw `-`. -/
@@ -125,8 +127,10 @@ def fxFract (t : IntTy) (fb : Nat) (a : Int) : Option Int := t.sub a (maskInt fb
 /-- `impl Add`: `self.0.wrapping_add(other.0)`; `impl Sub`: `wrapping_sub` (never trap). -/
 def fxAdd (a b : Int) : Int := i32.wrappingAdd a b
 def fxSub (a b : Int) : Int := i32.wrappingSub a b
-/-- `impl Neg for Fixed/F26Dot6`: `Self(-self.0)` — raw unary `-`. -/
-def fxNeg (a : Int) : Option Int := i32.neg a
+/-- `impl Neg for Fixed/F26Dot6` (after fix 7d0f778): `Self(self.0.wrapping_neg())`. -/
+def fxNeg (a : Int) : Option Int := pure (i32.wrappingNeg a)
+/-- the pre-fix `Neg`: `Self(-self.0)` — raw unary `-`. -/
+def fxNegPreFix (a : Int) : Option Int := i32.neg a
 
 /-- `impl Mul` (Fixed, F26Dot6): `let ab = self.0 as i64 * other.0 as i64;`
 `Self(((ab + 0x8000 - i64::from(ab < 0)) >> 16) as i32)`. -/
